@@ -215,6 +215,7 @@ pub fn run(ctx: &Ctx) -> Report {
     for (ri, r) in rs.iter().enumerate() { for sd in 0..4u8 {
         rep.acc.evals += 1; rep.acc.count("free_running_generator_cases", 1);
         if let Err((sig, d)) = free_running(*r, sd) { rep.acc.violation(sig, format!("u:{ri}:{sd}"), d); }
+        if r.lo >= 1 { rep.acc.evals += 1; rep.acc.count("free_running_generator_cases", 1); if let Err((sig, d)) = free_running_spelled(*r, sd, true) { rep.acc.violation(format!("excluded-start:{sig}"), format!("ux:{ri}:{sd}"), d); } }
     } }
     rep.bound("ranges", Json::i(nr)); rep.bound("polls", Json::i(polls)); rep.bound("event_sets", Json::i(ne_eff)); rep.bound("samples_branched", Json::i(7));
     rep.require(rep.acc.nontrivial > 1000 && rep.acc.outcomes.len() > 100, "many distinct firing patterns explored");
@@ -230,17 +231,19 @@ fn gaps_of(mut t: TimerDevice, polls: u32) -> Vec<u32> {
     gaps
 }
 /// `sd`: 0 = unseeded, 1..3 = seeds 0, 1, u64::MAX
-fn free_running(r: Range, sd: u8) -> Result<(), (String, String)> {
+fn free_running(r: Range, sd: u8) -> Result<(), (String, String)> { free_running_spelled(r, sd, false) }
+/// `xlo`: the same range spelled with an excluded start bound, `(Excluded(lo - 1), ..)` (needs lo >= 1)
+fn free_running_spelled(r: Range, sd: u8, xlo: bool) -> Result<(), (String, String)> {
     let res = catch(move || {
         let hi_incl = if r.incl { r.hi } else { r.hi.saturating_sub(1) };
         let mut allowed = std::collections::BTreeSet::new();
         for n in r.lo..=hi_incl { let g = gaps_of(Range { lo: n, hi: n, incl: true }.make(Some(5)), 60); if let Some(x) = g.first() { allowed.insert(*x); } }
         let seed = match sd { 0 => None, 1 => Some(0u64), 2 => Some(1), _ => Some(u64::MAX) };
-        let gaps = gaps_of(r.make(seed), 4000);
+        let gaps = gaps_of(if xlo { use std::ops::Bound::*; TimerDevice::new(seed, (Excluded(r.lo - 1), if r.incl { Included(r.hi) } else { Excluded(r.hi) }), 0x81, 4) } else { r.make(seed) }, 4000);
         (allowed, gaps)
     });
     let (allowed, gaps) = match res { Ok(x) => x, Err(p) => return Err((format!("panic:{}", panic_site(&p)), format!("{r:?}: {p}"))) };
-    let what = format!("timer with range {}{}{} and {} polled 4000 times with its own generator", r.lo, if r.incl { "..=" } else { ".." }, r.hi, if sd == 0 { "no seed".to_string() } else { format!("seed #{sd}") });
+    let what = format!("timer with range {}{}{}{} and {} polled 4000 times with its own generator", if xlo { format!("(excluded start bound {}, i.e. from) ", r.lo - 1) } else { String::new() }, r.lo, if r.incl { "..=" } else { ".." }, r.hi, if sd == 0 { "no seed".to_string() } else { format!("seed #{sd}") });
     if !allowed.is_empty() && gaps.len() < 100 { return Err(("free-running:too-few-interrupts".into(), format!("{what}: fewer than 100 interrupts"))); }
     if gaps.iter().any(|g| !allowed.contains(g)) { return Err((format!("free-running:gap-outside-range:{}", if sd == 0 { "unseeded" } else { "seeded" }), format!("{what}: some gap between consecutive interrupts is not one that an exact count inside the range gives (those give {allowed:?} polls in between)"))); }
     Ok(())
@@ -381,6 +384,7 @@ fn in_simulator(r: Range, prio: u8) -> Result<(), (String, String)> {
 }
 
 pub fn replay(case: &str) -> Option<String> {
+    if let Some(r) = case.strip_prefix("ux:") { let (a, b) = r.split_once(':')?; return free_running_spelled(*ranges().get(a.parse::<usize>().ok()?)?, b.parse().ok()?, true).err().map(|(s, d)| format!("[excluded-start:{s}] {d}")); }
     if let Some(r) = case.strip_prefix("u:") { let (a, b) = r.split_once(':')?; return free_running(*ranges().get(a.parse::<usize>().ok()?)?, b.parse().ok()?).err().map(|(s, d)| format!("[{s}] {d}")); }
     let p: Vec<&str> = case.splitn(4, ':').collect();
     let rs = ranges();
